@@ -14,7 +14,9 @@ import ast
 
 from ..core.source import norm, dotted, walk_no_nested, AnalysisError
 from ..core import algebra as A
-from ..rules import wrap as W
+from ..rules import wrapx as WX
+from ..core.libmodel import Rec, Applied, Gen
+from ..core.absint import Raised
 from ..rules.model import M_DISTN
 from ..specs import utilr as SPEC
 
@@ -115,54 +117,39 @@ def check(repo, res, tier):
             rets = {}
             for sc in scen:
                 tagsc = "log=%s" % sc.get("log") if sc else "plain"
+                args = {p_: A.sym(p_) for p_ in ps if p_ not in ("log", "seed")}
+                args.update(sc)
                 try:
-                    kind, val = W.run_scenario(f.node, sc)
+                    kind, val, _ = WX.run(f, args)
                 except A.Undecided as e:
-                    res.undecided("R-WRAP", f, tagsc, "wrapper body not in thin-wrapper form: %s" % e)
+                    res.undecided("R-WRAP", f, tagsc, "wrapper outside the modelled subset: %s" % e)
                     continue
                 if kind != "return" or val is None:
-                    res.violated("R-WRAP", f, tagsc, "%s(%s) %s instead of returning a value" % (name, tagsc, "raises" if kind == "raise" else "returns None"))
+                    res.violated("R-WRAP", f, tagsc, "%s(%s) %s instead of returning a value" % (name, tagsc, ("raises %s" % val) if kind == "raise" else "returns None"))
                     continue
                 rets[tagsc] = val
-                # q-functions with log=True: R's log.p means p is given as log(p)
-                expect_first = first
-                if letter == "q" and sc.get("log"):
-                    expect_first = "exp(%s)" % first
-                cp = W.call_parts(val)
-                if cp is None:
-                    res.violated("R-WRAP", f, tagsc, "returns %s, not a call of %s" % (norm(val), spec["scipy"]), node=f.node)
-                    continue
-                callee, pos, kw, sub = cp
                 want_m = logm if (sc.get("log") and letter != "q") else plain
                 want = "%s.%s" % (spec["scipy"], want_m)
                 problems = []
-                if callee != want:
-                    problems.append("calls %s, expected %s" % (callee, want))
-                if not pos:
-                    problems.append("no positional argument")
+                if not isinstance(val, Rec):
+                    problems.append("returns %r, not the result of %s" % (val, want))
                 else:
-                    try:
-                        got0 = A.lift(_ev(pos[0], ps))
-                        want0 = A.lift(_ev_src("np." + expect_first if expect_first.startswith("exp(") else expect_first,
-                                               {n: A.sym(n) for n in ps}))
-                        if got0 != want0:
-                            problems.append("first argument %s, expected %s" % (norm(pos[0]), expect_first))
-                    except A.Undecided as e:
-                        problems.append("first argument %s not normalisable (%s)" % (norm(pos[0]), e))
-                bound = _bind(pos, kw, spec["sig"])
-                if bound is None:
-                    problems.append("arguments do not fit the signature of %s" % spec["scipy"])
-                else:
-                    problems += _cmp_kwargs(bound, spec["kw"], p1, p2, ps)
-                if sub is not None:
-                    problems.append("result is subscripted")
+                    if val.callee != want:
+                        problems.append("calls %s, expected %s" % (val.callee, want))
+                    if val.index is not None:
+                        problems.append("result is subscripted")
+                    # q-functions with log=True: R's log.p means p is given as log(p)
+                    want0 = A.exp(A.sym(first)) if (letter == "q" and sc.get("log")) else A.sym(first)
+                    got0 = val.args.get("<arg>")
+                    if got0 is None or WX.rat(got0) is None or WX.rat(got0) != want0:
+                        problems.append("first argument %r, expected %r" % (got0, want0))
+                    problems += _cmp_bound({k: v for k, v in val.args.items() if k != "<arg>"}, spec["kw"], p1, p2)
                 res.check(not problems, "R-WRAP", f, tagsc, "%s -> %s(%s)" % (tagsc, want, ", ".join("%s=%s" % kv for kv in sorted(spec["kw"].items()))),
-                          "%s(%s): %s" % (name, tagsc, "; ".join(problems)), node=f.node,
-                          extra={"returned": norm(val)})
+                          "%s(%s): %s" % (name, tagsc, "; ".join(problems)), node=f.node, extra={"returned": repr(val)[:200]})
             if has_log and len(rets) == 2:
-                same = norm(rets["log=False"]) == norm(rets["log=True"])
+                same = WX.same_value(rets["log=False"], rets["log=True"])
                 res.check(not same, "R-UNUSED", f, "param(log)", "log flag selects a different computation",
-                          "%s ignores its `log` argument: the same expression is returned for log=True and log=False" % name, node=f.node)
+                          "%s ignores its `log` argument: the same value is returned for log=True and log=False" % name, node=f.node)
         else:
             _check_sampler(res, f, name, fam, spec, ps, p1, p2)
     res.floor("utilR d/p/q/r wrappers", n_wrappers, 31)
@@ -199,56 +186,80 @@ def check(repo, res, tier):
     _check_test_seed(res, funcs)
 
 
+def _cmp_bound(bound, expected, p1, p2):
+    """bound: name -> abstract value of the library call; expected: name -> source text over p1, p2"""
+    bad = []
+    penv = {"p1": A.sym(p1) if p1 else None, "p2": A.sym(p2) if p2 else None}
+    exp_full = dict(SPEC.DEFAULTS)
+    exp_full.update(expected)
+    show = lambda t: t.replace("p1", str(p1)).replace("p2", str(p2))
+    for k, v in bound.items():
+        if k in ("size", "random_state"):
+            continue
+        if k not in exp_full:
+            bad.append("unexpected argument %s=%r" % (k, v))
+            continue
+        want = A.lift(_ev_src(exp_full[k], {kk: vv for kk, vv in penv.items() if vv is not None}))
+        got = WX.rat(v)
+        if got is None or got != want:
+            bad.append("%s=%r, expected %s" % (k, v, show(exp_full[k])))
+    for k in expected:
+        if k not in bound:
+            bad.append("missing argument %s (=%s)" % (k, show(expected[k])))
+    return bad
+
+
+def _gen_name(kind):
+    if kind == "global":
+        return "numpy's global generator"
+    if isinstance(kind, tuple) and kind[0] == "seeded":
+        return "RandomState(%r)" % (kind[1],)
+    if kind == "fresh":
+        return "a fresh RandomState() (seeded from the operating system)"
+    return "generator %r" % (kind,)
+
+
 def _check_sampler(res, f, name, fam, spec, ps, p1, p2):
     seeded = fam in SPEC.SEEDED
     if "seed" not in ps:
         if seeded:
             res.violated("R-SEED", f, "signature", "%s documents seeding but has no seed parameter" % name)
         return
-    for seed in (None, 12345, 0):
+    for seed in (None, 12345, 0, 1):
         for n in (1, 3):
-            tag = "seed=%s,n=%d" % ("None" if seed is None else ("0" if seed == 0 else "int"), n)
+            tag = "seed=%s,n=%d" % ("None" if seed is None else ("int" if seed == 12345 else str(seed)), n)
+            args = {p_: A.sym(p_) for p_ in ps[1:] if p_ != "seed"}
+            args.update({"seed": seed, ps[0]: n})
             try:
-                kind, val = W.run_scenario(f.node, {"seed": seed, ps[0]: n})
+                kind, val, reg = WX.run(f, args)
             except A.Undecided as e:
-                res.undecided("R-SEED", f, tag, "sampler body not in thin-wrapper form: %s" % e)
+                res.undecided("R-SEED", f, tag, "sampler outside the modelled subset: %s" % e)
                 continue
             if kind != "return" or val is None:
-                res.violated("R-SEED", f, tag, "%s %s" % (name, "raises" if kind == "raise" else "returns None"))
+                res.violated("R-SEED", f, tag, "%s %s" % (name, ("raises %s" % val) if kind == "raise" else "returns None"))
                 continue
-            cp = W.call_parts(val)
-            if cp is None:
-                res.violated("R-SEED", f, tag, "returns %s, not a sampler call" % norm(val))
-                continue
-            callee, pos, kw, sub = cp
             if not seeded:
                 continue
+            if not isinstance(val, Rec) or val.owner is None:
+                res.violated("R-SEED", f, tag, "returns %r, not a draw from a numpy sampler" % (val,))
+                continue
             problems = []
-            if seed is None:
-                want = "np.random." + spec["np"]
-                if callee != want:
-                    problems.append("draws from %s, expected numpy's global %s" % (callee, want))
-            else:
-                want = "test_seed(%s).%s" % ("seed", spec["np"])
-                if callee.replace(" ", "") != want:
-                    problems.append("draw comes from %s, not from the seeded generator %s: two calls with the same "
-                                    "integer seed give different numbers" % (callee, want))
-            bound = _bind(pos, kw, spec["npsig"], skip_first=False)
-            if bound is None:
-                problems.append("arguments do not fit numpy's %s signature" % spec["np"])
-            else:
-                # size must be n
-                sz = bound.get("size")
-                if sz is None or norm(sz) != ps[0]:
-                    problems.append("size=%s, expected %s" % (norm(sz), ps[0]))
-                if callee.startswith("np.random.") or callee.startswith("test_seed("):
-                    problems += _cmp_kwargs({k: v for k, v in bound.items() if k != "size"}, spec["npkw"], p1, p2, ps)
-            if n == 1 and (sub is None or norm(sub) != "0"):
+            want_gen = "np.random" if seed is None else "RandomState(%r)" % seed
+            if val.owner != want_gen:
+                problems.append("the draw comes from %s, expected %s%s" % (
+                    val.owner, want_gen, "" if seed is None else ": two calls with the same integer seed give different numbers"))
+            if val.callee != spec["np"]:
+                problems.append("sampler %s, expected %s" % (val.callee, spec["np"]))
+            sz = val.args.get("size")
+            if sz != n:
+                problems.append("size=%r, expected %d" % (sz, n))
+            problems += _cmp_bound({k: v for k, v in val.args.items() if k != "size"}, spec["npkw"], p1, p2)
+            if n == 1 and val.index != 0:
                 problems.append("n=1 should return the single element [0]")
-            if n > 1 and sub is not None:
+            if n > 1 and val.index is not None:
                 problems.append("n>1 should return the whole array")
-            res.check(not problems, "R-SEED", f, tag, "%s -> %s" % (tag, norm(val)[:80]),
-                      "%s(%s): %s" % (name, tag, "; ".join(problems)), node=f.node, extra={"returned": norm(val)})
+            res.check(not problems, "R-SEED", f, tag, "%s -> %r" % (tag, val),
+                      "%s(%s): %s" % (name, tag, "; ".join(problems)), node=f.node, extra={"returned": repr(val)[:200]})
 
 
 def _check_test_seed(res, funcs):
@@ -256,23 +267,26 @@ def _check_test_seed(res, funcs):
     if f is None:
         raise AnalysisError("test_seed vanished")
     p = _params(f)[0]
-    want = {"True": ("np.random.RandomState", []), "int": ("np.random.RandomState", [p])}
-    for label, val in (("True", True), ("int", 7)):
+    pre = Gen(("seeded", 99))
+    cases = [("True", True, "fresh"), ("int", 7, ("seeded", 7)), ("0", 0, ("seeded", 0)), ("1", 1, ("seeded", 1)),
+             ("RandomState", pre, ("seeded", 99))]
+    for label, val, want in cases:
         try:
-            kind, v = W.run_scenario(f.node, {p: val})
+            kind, v, _ = WX.run(f, {p: val})
         except A.Undecided as e:
             res.undecided("R-SEED", f, "test_seed(%s)" % label, str(e))
             continue
-        cp = W.call_parts(v) if (kind == "return" and v is not None) else None
-        ok = cp is not None and cp[0] == want[label][0] and [norm(a) for a in cp[1]] == want[label][1] and not cp[2]
+        ok = kind == "return" and isinstance(v, Gen) and v.kind == want and (label != "RandomState" or v is pre)
         res.check(ok, "R-SEED", f, "test_seed(%s)" % label,
-                  "test_seed(%s) -> %s" % (label, norm(v)),
-                  "test_seed(%s) gives %s, expected np.random.RandomState(%s)" % (label, norm(v) if v is not None else kind, ", ".join(want[label][1])),
+                  "test_seed(%s) -> %s" % (label, _gen_name(want)),
+                  "test_seed(%s) gives %s, expected %s" % (label, _gen_name(v.kind) if isinstance(v, Gen) else ("raises %s" % v if kind == "raise" else repr(v)), _gen_name(want)),
                   node=f.node)
-    for label, val in (("None", None),):
-        kind, v = W.run_scenario(f.node, {p: val})
+    try:
+        kind, v, _ = WX.run(f, {p: None})
         res.check(kind == "raise", "R-SEED", f, "test_seed(None)", "test_seed(None) raises (callers test `seed is None` first)",
                   "test_seed(None) no longer raises", node=f.node)
+    except A.Undecided as e:
+        res.undecided("R-SEED", f, "test_seed(None)", str(e))
 
 
 def _closed_form(res, f, flags_log, env_names, ref_src, ref_env, what):
@@ -317,47 +331,41 @@ def _check_closed_forms(repo, res, funcs):
         raise AnalysisError("dnbinom vanished")
     ps = _params(dn)
     res.functions.add(dn.construct)
+    nbp = _params(nb)
+
+    def nb_summary(*a, **k):
+        from ..core.libmodel import bind as _b
+        return Rec("nb2pmf", _b(nbp, a, k, "nb2pmf"))
+    xs, sz, mus, prs = A.sym(ps[0]), A.sym("size"), A.sym("mu"), A.sym("prob")
     for lg in (True, False):
-        # mean/size form
         tag = "mu-form(log=%s)" % lg
         try:
-            kind, v = W.run_scenario(dn.node, {"mu": W.Opaque("mu"), "prob": None, "log": lg})
-            cp = W.call_parts(v) if kind == "return" and v is not None else None
-            ok = False
-            why = "returns %s" % (norm(v) if v is not None else kind)
-            if cp and cp[0] == "nb2pmf":
-                bound = _bind(cp[1], cp[2], _params(nb)[1:])
-                bound = dict(bound or {})
-                if cp[1]:
-                    bound[_params(nb)[0]] = cp[1][0]
-                ok = (norm(bound.get("x")) == ps[0] and norm(bound.get("mu")) == "mu" and norm(bound.get("k")) == "size"
-                      and isinstance(bound.get("log"), ast.Constant) and bound["log"].value is lg)
-                why = "nb2pmf(%s)" % ", ".join("%s=%s" % (kk, norm(vv)) for kk, vv in sorted(bound.items()))
-            res.check(ok, "R-WRAP", dn, tag, "dnbinom mean form -> " + why,
-                      "dnbinom(x, size, mu=mu, log=%s) -> %s, expected nb2pmf(x=x, mu=mu, k=size, log=%s)" % (lg, why, lg), node=dn.node)
+            kind, v, _ = WX.run(dn, {ps[0]: xs, "size": sz, "mu": mus, "prob": None, "log": lg}, extra={"nb2pmf": nb_summary})
+            ok = kind == "return" and isinstance(v, Rec) and v.callee == "nb2pmf" and v.index is None \
+                and WX.same_value(v.args.get("x"), xs) and WX.same_value(v.args.get("mu"), mus) and WX.same_value(v.args.get("k"), sz) \
+                and (v.args.get("log", False) is lg) and set(v.args) <= {"x", "mu", "k", "log"}
+            res.check(bool(ok), "R-WRAP", dn, tag, "dnbinom mean form -> %r" % (v,),
+                      "dnbinom(x, size, mu=mu, log=%s) -> %s, expected nb2pmf(x=x, mu=mu, k=size, log=%s)" % (lg, ("raises %s" % v) if kind == "raise" else repr(v), lg), node=dn.node)
         except A.Undecided as e:
             res.undecided("R-WRAP", dn, tag, str(e))
         tag = "prob-form(log=%s)" % lg
         try:
-            kind, v = W.run_scenario(dn.node, {"mu": None, "prob": W.Opaque("prob"), "log": lg})
-            cp = W.call_parts(v) if kind == "return" and v is not None else None
+            kind, v, _ = WX.run(dn, {ps[0]: xs, "size": sz, "mu": None, "prob": prs, "log": lg}, extra={"nb2pmf": nb_summary})
             want = "st.nbinom." + ("logpmf" if lg else "pmf")
-            ok = False
-            why = "returns %s" % (norm(v) if v is not None else kind)
-            if cp:
-                bound = _bind(cp[1], cp[2], ["n", "p", "loc"])
-                ok = cp[0] == want and cp[1] and norm(cp[1][0]) == ps[0] and bound is not None \
-                    and norm(bound.get("n")) == "size" and norm(bound.get("p")) == "prob" and set(bound) <= {"n", "p"}
-                why = norm(v)
-            res.check(bool(ok), "R-WRAP", dn, tag, "dnbinom (n,p) form -> " + why,
-                      "dnbinom(x, size, prob, log=%s) -> %s, expected %s(x, n=size, p=prob)" % (lg, why, want), node=dn.node)
+            ok = kind == "return" and isinstance(v, Rec) and v.callee == want and v.index is None \
+                and WX.same_value(v.args.get("<arg>"), xs) and WX.same_value(v.args.get("n"), sz) and WX.same_value(v.args.get("p"), prs) \
+                and set(v.args) <= {"<arg>", "n", "p"}
+            res.check(bool(ok), "R-WRAP", dn, tag, "dnbinom (n,p) form -> %r" % (v,),
+                      "dnbinom(x, size, prob, log=%s) -> %s, expected %s(x, n=size, p=prob)" % (lg, ("raises %s" % v) if kind == "raise" else repr(v), want), node=dn.node)
         except A.Undecided as e:
             res.undecided("R-WRAP", dn, tag, str(e))
     for sc, label in (({"mu": None, "prob": None, "log": False}, "neither"),
-                      ({"mu": W.Opaque("mu"), "prob": W.Opaque("prob"), "log": False}, "both")):
+                      ({"mu": mus, "prob": prs, "log": False}, "both")):
         try:
-            kind, v = W.run_scenario(dn.node, sc)
+            a_ = {ps[0]: xs, "size": sz}
+            a_.update(sc)
+            kind, v, _ = WX.run(dn, a_, extra={"nb2pmf": nb_summary})
             res.check(kind == "raise", "R-WRAP", dn, "reject(%s)" % label, "dnbinom rejects %s of prob/mu" % label,
-                      "dnbinom accepts %s of prob/mu given and returns %s" % (label, norm(v)), node=dn.node)
+                      "dnbinom accepts %s of prob/mu given and returns %r" % (label, v), node=dn.node)
         except A.Undecided as e:
             res.undecided("R-WRAP", dn, "reject(%s)" % label, str(e))
